@@ -82,6 +82,15 @@ def run(run):
         cp = os.path.join(out, "curated_%s.ndjson" % keep)
         run.gen("gen_curated_%s" % keep, SPEC, "OSMExtractGen", p, cp, workers=1, timeout=1800)
         curated += vlib.read_ndjson(cp)
+    # deep reference chains ("transitively": one more pass per level), selected by tag from the far end
+    p = os.path.join(out, "GenD.cfg")
+    cfg(p, 1, "tags", "DeepQuick" if quick else "DeepThorough", gen=True, done_only=True)
+    cp = os.path.join(out, "deep.ndjson")
+    run.gen("gen_deep", SPEC, "OSMExtractGen", p, cp, workers=1, timeout=1800)
+    deep = vlib.read_ndjson(cp)
+    if not deep:
+        raise vlib.MachineryError("no deep-chain schedule was generated")
+    curated += deep
     cases += curated
     for c in cases:
         c["mode"] = "gated"
